@@ -900,6 +900,38 @@ def gen_ffi_tables(repo):
     funcs += 'Definition filter_parse_order : list string := [' + '; '.join(coq_str(a) for a in attempts) + '].\n'
     funcs += 'Definition filter_add_arms : list (string * string) := [' + '; '.join(f'({coq_str(a)}, {coq_str(b)})' for a, b in add_rows) + '].\n\n'
 
+    # ------------------------------------------------------------------ listener adapters (client.rs): every update is forwarded
+    lrows = []
+    for lname, ltype in (('ClientStateListener', r'ClientState'), ('PortStateListener', r'rodbus::client::PortState')):
+        ml = re.search(r'impl\s+Listener<\s*' + ltype + r'\s*>\s+for\s+' + lname + r'\s*\{', fclient)
+        if not ml:
+            raise ParseError(f'client.rs: impl Listener<..> for {lname} not found')
+        lblock = fclient[ml.end():matching(fclient, ml.end() - 1, '{', '}') - 1]
+        ub = body_of(lblock, r'fn\s+update\s*\(', f'client.rs {lname}::update')
+        lrows.append((lname, [nows(x) for x in rp.split_top(ub, ';') if x.strip()]))
+        ms = re.search(r'struct\s+' + lname + r'\s*\{', fclient)
+        sfields = [nows(x).split(':')[0] for x in rp.split_top(fclient[ms.end():matching(fclient, ms.end() - 1, '{', '}') - 1]) if x.strip()] if ms else ['?']
+        lrows[-1] = (lname, sfields, lrows[-1][1])
+    funcs += '(* client.rs listener adapters handed to the Rust API: (adapter, its fields, the statements of Listener::update, whitespace removed) *)\n'
+    funcs += 'Definition listener_adapters : list (string * list string * list string) := [\n' + ';\n'.join(
+        f'  ({coq_str(a)}, [' + '; '.join(coq_str(x) for x in f) + '], [' + '; '.join(coq_str(x) for x in b) + '])' for a, f, b in lrows) + '\n].\n\n'
+
+    # ------------------------------------------------------------------ FfiChannel::enable / disable: nothing but the send
+    srows = []
+    mfi = re.search(r'\bimpl\s+FfiChannel\s*\{', r_ffichan)
+    if not mfi:
+        raise ParseError('ffi_channel.rs: impl FfiChannel not found')
+    fblock = r_ffichan[mfi.end():matching(r_ffichan, mfi.end() - 1, '{', '}') - 1]
+    for fname in ('enable', 'disable'):
+        fb = body_of(fblock, r'pub\s+fn\s+' + fname + r'\s*\(', f'ffi_channel.rs FfiChannel::{fname}')
+        srows.append((fname, [nows(x) for x in rp.split_top(fb, ';') if x.strip()]))
+    msf = re.search(r'pub\s+struct\s+FfiChannel\s*\{', r_ffichan)
+    ffields = [nows(x).split(':')[0] for x in rp.split_top(r_ffichan[msf.end():matching(r_ffichan, msf.end() - 1, '{', '}') - 1]) if x.strip()] if msf else ['?']
+    funcs += '(* ffi_channel.rs: the fields of FfiChannel and the statements of FfiChannel::enable / disable (whitespace removed) *)\n'
+    funcs += 'Definition ffi_channel_fields : list string := [' + '; '.join(coq_str(x) for x in ffields) + '].\n'
+    funcs += 'Definition ffi_channel_settings : list (string * list string) := [' + '; '.join(
+        f'({coq_str(a)}, [' + '; '.join(coq_str(x) for x in b) + '])' for a, b in srows) + '].\n\n'
+
     out = 'Local Open Scope string_scope.\n\n' + en.render() + funcs
     out += '(* every conversion table: (Coq function, source enum, target enum) *)\n'
     out += 'Definition conversion_tables : list string := [' + '; '.join(coq_str(t[0]) for t in tables) + '].\n'
